@@ -308,6 +308,9 @@ const printableAlphabet = "ABCDEFGHIJKLMNOPQRSTUVWXYZabcdefghijklmnopqrstuvwxyz0
 
 func (g *Gen) octets(p per.Params, printable bool) []byte {
 	n := g.size(p, "octet")
+	if n == 0 && !printable && g.R.Intn(2) == 0 {
+		return nil // the zero value of the Go type: an OCTET STRING of size 0 all the same
+	}
 	b := make([]byte, n)
 	if printable {
 		for i := range b {
